@@ -174,10 +174,10 @@ def check_one(con, vname, fn, case, env0, timeout_s=5, pid=None):
     if exc is not None:
         ename = type(exc).__name__
         declared = None
-        for d in list(raises) + list(may_raise):
-            if any(c.__name__ == d for c in type(exc).__mro__):
-                declared = d
-                break
+        mro_names = [c.__name__ for c in type(exc).__mro__]
+        cands = [d for d in list(raises) + list(may_raise) if d in mro_names]
+        if cands:
+            declared = min(cands, key=mro_names.index)      # the most specific declared class
         if declared is None:
             failures.append((f'noexc:{ename}', f'raised {ename}: {exc}'))
         else:
